@@ -33,6 +33,15 @@ func backends() []backend {
 		{"lifo1", false, func(ctx context.Context, o pubsub.BrokerOptions) *pubsub.Broker[int] {
 			return pubsub.NewLIFOBroker[int](ctx, o, 1)
 		}},
+		// distributors with filters (they shed the rejected messages): only published messages, never twice
+		{"queue+outfilter", false, func(ctx context.Context, o pubsub.BrokerOptions) *pubsub.Broker[int] {
+			d := pubsub.NewUnlimitedQueue[int]().Distributor().WithOutputFilter(func(v int) bool { return v%2 == 1 })
+			return pubsub.MakeDistributorBroker(ctx, d, o)
+		}},
+		{"deque+infilter", false, func(ctx context.Context, o pubsub.BrokerOptions) *pubsub.Broker[int] {
+			d := pubsub.NewUnlimitedDeque[int]().Distributor().WithInputFilter(func(v int) bool { return v%2 == 0 })
+			return pubsub.MakeDistributorBroker(ctx, d, o)
+		}},
 		{"queue-hard1", false, func(ctx context.Context, o pubsub.BrokerOptions) *pubsub.Broker[int] {
 			q, err := pubsub.NewQueue[int](pubsub.QueueOptions{HardLimit: 1, SoftQuota: 1})
 			if err != nil {
@@ -401,7 +410,7 @@ func build(tier string) ([]runner.Instance, time.Duration) {
 					continue
 				}
 				cb := bound
-				if c.nsubs == 3 && len(c.actions) == 1 && !par && be.name != "lifo1" && be.name != "queue-hard1" {
+				if c.nsubs == 3 && len(c.actions) == 1 && !par && be.lossless {
 					// an Unsubscribe landing while a dispatch is parked on a subscriber
 					// that is not receiving yet needs two deviations
 					cb = bound + 1
